@@ -525,9 +525,40 @@ pub(crate) fn ntt_case(a: &[i64], b: &[i64]) -> Result<(), String> {
     }
     Ok(())
 }
+/// the vector whose transform is `big` (evaluation order of the in-place transform: the roots
+/// +-T[n/2 + i/2], T = the forward twiddle table, proved by U-TAB), by O(n^2) interpolation
+fn ntt_preimage(big: &[i64]) -> Vec<i64> {
+    let n = big.len();
+    let q = refspec::Q;
+    let pw = |mut b: i64, mut e: i64| { let mut r = 1i64; b = b.rem_euclid(q); while e > 0 { if e & 1 == 1 { r = r * b % q; } b = b * b % q; e >>= 1; } r };
+    let roots: Vec<i64> = (0..n).map(|i| {
+        if n == 1 { q - 1 } else {
+            let t = crate::fast_fft::verif::tab_value(n / 2 + i / 2);
+            if i % 2 == 0 { t.rem_euclid(q) } else { (-t).rem_euclid(q) }
+        }
+    }).collect();
+    let ninv = pw(n as i64, q - 2);
+    (0..n).map(|j| {
+        let mut acc = 0i64;
+        for i in 0..n { acc = (acc + big[i] * pw(pw(roots[i], q - 2), j as i64)) % q; }
+        acc * ninv % q
+    }).collect()
+}
 pub(crate) fn search_ntt(seed: u64) -> Option<String> {
     let mut st = seed.wrapping_mul(6364136223846793005).wrapping_add(1442695040888963407) | 1;
     let mut rnd = move || { st ^= st << 13; st ^= st >> 7; st ^= st << 17; st };
+    let enc = |v: &Vec<i64>| v.iter().map(|x| x.to_string()).collect::<Vec<_>>().join(";");
+    // vectors that are extreme in the transform domain (long runs of q - 1 next to runs of 0): what an
+    // implementation with delayed reductions would overflow on
+    for n in [32usize, 64, 128, 256, 512, 1024] {
+        for (run, phase) in [(n / 8, 0usize), (n / 8, 1), (n / 4, 0), (n / 2, 0), (n, 0), (16, 0), (16, 1)] {
+            let big: Vec<i64> = (0..n).map(|i| if (i / run.max(1) + phase) % 2 == 0 { 12288 } else { 0 }).collect();
+            let a = ntt_preimage(&big);
+            let mut one = vec![0i64; n]; one[0] = 1;
+            if let Err(why) = ntt_case(&a, &one) { return Some(format!("{} | argv=ntt-case,{},{}", why, enc(&a), enc(&one))); }
+            if n >= 512 { break; }
+        }
+    }
     let mut n = 1usize;
     while n <= 1024 {
         for round in 0..4 {
@@ -696,6 +727,32 @@ pub(crate) fn search_sk(seed: u64) -> Option<String> {
         }
     }
     search_keygen(seed)
+}
+
+/// Directed witness search for batch inversion (bounded; witness production only)
+pub(crate) fn batchinv_case(v: &[i64]) -> Result<(), String> {
+    use crate::inverse::Inverse;
+    let fv: Vec<Felt> = v.iter().map(|x| Felt::new(*x as i16)).collect();
+    let fv2 = fv.clone();
+    let got = match std::panic::catch_unwind(move || Felt::batch_inverse_or_zero(&fv2)) { Ok(g) => g, Err(_) => return Err("batch_inverse_or_zero panicked".into()) };
+    if got.len() != fv.len() { return Err(format!("batch_inverse_or_zero returned {} values for {} inputs", got.len(), fv.len())); }
+    for i in 0..fv.len() {
+        let a = fv[i].value() as i64; let r = got[i].value() as i64;
+        if !(0..12289).contains(&r) { return Err(format!("entry {}: result {} is not in [0, q)", i, r)); }
+        if a == 0 && r != 0 { return Err(format!("entry {}: the inverse-or-zero of 0 must be 0, got {}", i, r)); }
+        if a != 0 && (a * r) % 12289 != 1 { return Err(format!("entry {}: {} * {} != 1 mod q", i, a, r)); }
+    }
+    Ok(())
+}
+pub(crate) fn search_batchinv(seed: u64) -> Option<String> {
+    let mut st = seed.wrapping_mul(6364136223846793005).wrapping_add(1442695040888963407) | 1;
+    let mut rnd = move || { st ^= st << 13; st ^= st >> 7; st ^= st << 17; st };
+    let mut cands: Vec<Vec<i64>> = vec![vec![], vec![0], vec![1], vec![12288], vec![3, 0], vec![0, 3], vec![0, 0, 5], vec![5, 0, 0, 7, 0], vec![0; 9], (1..40).collect()];
+    for k in 0..60 { let len = 1 + (rnd() % 70) as usize; cands.push((0..len).map(|_| if rnd() % 4 == 0 { 0 } else { (rnd() % 12289) as i64 }).collect()); let _ = k; }
+    for c in cands {
+        if let Err(why) = batchinv_case(&c) { return Some(format!("{} | argv=batchinv-case,{}", why, c.iter().map(|x| x.to_string()).collect::<Vec<_>>().join(";"))); }
+    }
+    None
 }
 
 /// Directed witness search for the public-key codec (bounded; witness production only).
